@@ -11,7 +11,7 @@ CONCEPTS = ['ca', 'ca.x', 'ca.x.y', 'cb']
 OTYPES = ['oa', 'ob', 'oc']
 VALUES = ['v1', 'v2', 'v3', 'v4']
 MIN_CONF = [0.0, 0.05, 0.1, 0.3, 0.5, 0.9, 1.0]
-MAX_DEPTH = [1, 2, 3, 10]
+MAX_DEPTH = [1, 2, 3, 10, 0]
 
 
 def gen_spec(rng, big=False):
@@ -313,6 +313,21 @@ def explicit_seed_probe(spec, events, min_conf, max_depth, upgrade_at):
         for a in inst.attributes:
             if not (min_conf - 1e-12 <= a.confidence <= 1 + 1e-12):
                 return 'explicit seed %s: attribute %s=%s has confidence %r (minimum %s)' % (seed.id, a.name, a.value, a.confidence, min_conf)
+        # another seed on the same graph, with a higher minimum: everything that is reported now (the instance of the first seed
+        # included) meets the minimum that was asked for now
+        seed2 = cands[0] if cands[0] is not seed else cands[-1]
+        min2 = max(min_conf, 0.5)
+        m.mine(seed2, min2, max_depth)
+        for sid, inst in kb.concept_collection.concepts.items():
+            for a in inst.attributes:
+                if not (min2 - 1e-12 <= a.confidence <= 1 + 1e-12):
+                    return ('after mining seed %s with minimum %s and then seed %s with minimum %s, attribute %s=%s of instance %s is reported '
+                            'with confidence %r' % (seed.id, min_conf, seed2.id, min2, a.name, a.value, sid, a.confidence))
+                for n in a.nodes.values():
+                    c = n.seed_confidences.get(sid, 0)
+                    if c < min2 - 1e-12:
+                        return ('after mining seed %s with minimum %s and then seed %s with minimum %s, node %s is reported in instance %s '
+                                'with confidence %r' % (seed.id, min_conf, seed2.id, min2, n.id, sid, c))
     except Exception as ex:
         return 'mining with an explicit seed raised %s' % type(ex).__name__
     return None
